@@ -94,7 +94,7 @@ static void unsolicited_reset_state(struct cat_object *self)
 
 static cat_status is_busy(struct cat_object *self)
 {
-        return (self->state != CAT_STATE_IDLE) ? CAT_STATUS_BUSY : CAT_STATUS_OK;
+        return ((self->state != CAT_STATE_IDLE) || (self->unsolicited_fsm.state != CAT_UNSOLICITED_STATE_IDLE)) ? CAT_STATUS_BUSY : CAT_STATUS_OK;
 }
 
 cat_status cat_is_busy(struct cat_object *self)
